@@ -768,6 +768,53 @@ pub fn tone_alias_call(r: &mut Rng) -> Call {
     Call { kind: "run".into(), rules: vec![], words, into: vec![], from: vec![alias.to_string()] }
 }
 
+/// long word lists (longer than any batch or chunk size a library is likely to use): half of
+/// them plain, half with two or three rules that each fail at run time on a different segment,
+/// so that WHICH error a call reports depends on which failing word the library meets first
+pub fn long_list_call(d: &Data, r: &mut Rng) -> Call {
+    let n = *r.pick(&[65usize, 66, 80, 127, 128, 129, 200, 257, 320][..]);
+    if r.chance(1, 2) {
+        let nr = r.range(1, 2);
+        let rules: Vec<String> = (0..nr).map(|_| gen_rule(d, r)).collect();
+        let mut words: Vec<String> = (0..n).map(|_| gen_word(d, r)).collect();
+        for _ in 0..r.range(0, 4) {
+            let k = r.below(words.len());
+            words[k] = String::new();
+        }
+        for _ in 0..r.range(0, 3) {
+            let (a, b) = (r.below(words.len()), r.below(words.len()));
+            words[a] = words[b].clone();
+        }
+        return Call { kind: "run".into(), rules: vec![Group::anon(rules)], words, into: vec![], from: vec![] };
+    }
+    // (rule, segment that makes it fail)
+    let traps: [(&str, &str); 5] = [("x > 1", "x"), ("y > 2", "y"), ("s > [-manner]", "s"), ("ɸ > [Avoice]", "ɸ"), ("ʒ > 3:[+long]", "ʒ")];
+    let mut idx: Vec<usize> = (0..traps.len()).collect();
+    r.shuffle(&mut idx);
+    let chosen: Vec<(&str, &str)> = idx.iter().take(r.range(2, 3)).map(|&i| traps[i]).collect();
+    let plain = ["pa", "ti", "ku", "me", "no", "li", "ka.ti", "mu.no", "po.ke.mi", "tat", "kin"];
+    let mut words: Vec<String> = (0..n).map(|_| (*r.pick(&plain[..])).to_string()).collect();
+    // every chosen trap is sprung by at least one word; where they sit is random, sometimes clustered
+    // at the end of the list
+    for (_, seg) in &chosen {
+        for _ in 0..r.range(1, 3) {
+            let k = if r.chance(1, 3) { n - 1 - r.below(n / 4) } else { r.below(n) };
+            words[k] = format!("{seg}a");
+        }
+    }
+    if r.chance(1, 3) {
+        // one trap fills the back half
+        let (_, seg) = chosen[0];
+        for w in words.iter_mut().skip(n / 2) {
+            *w = format!("{seg}a");
+        }
+        let (_, seg2) = chosen[1];
+        let k = r.below(n / 2);
+        words[k] = format!("{seg2}a");
+    }
+    Call { kind: "run".into(), rules: vec![Group::anon(chosen.iter().map(|(ru, _)| ru.to_string()).collect())], words, into: vec![], from: vec![] }
+}
+
 /// corpus cross product sample: a test rule applied to a handful of test words
 pub fn corpus_call(d: &Data, r: &mut Rng) -> Call {
     let rule = r.pick(&d.test_rules).clone();
